@@ -65,11 +65,30 @@ fn c20_format(ctx: &mut Ctx) {
     let x = value_for_text(ctx);
     let tr = ctx.below(3);
     let plus = ctx.flag();
-    let prec = if ctx.flag() { Some(ctx.range(0, 40) as usize) } else { None };
+    // every usize is a legal precision; f64 renderings change character at 17, ~340 (fixed
+    // notation of tiny values), 767 (longest exact expansion of a normal f64) and 1074
+    let prec = if ctx.flag() {
+        Some(match ctx.weighted(&[14, 3, 2, 1]) {
+            0 => ctx.range(0, 40) as usize,
+            1 => ctx.range(41, 340) as usize,
+            2 => ctx.range(341, 1100) as usize,
+            _ => [766usize, 767, 768, 769, 1022, 1023, 1024, 1074, 1075, 1076, 1100, 2000, 4096, 65535][ctx.below(14) as usize],
+        })
+    } else {
+        None
+    };
     x.key(ctx);
-    ctx.key_u64(tr * 1000 + plus as u64 * 100 + prec.map_or(99, |p| p as u64));
+    ctx.key_u64(tr * 2 + plus as u64);
+    ctx.key_u64(prec.map_or(u64::MAX, |p| p as u64));
     note_dd(ctx, "x", x);
     let t = x.tf();
+    // the claim is stated in terms of the f64 renderings: where std's own f64 formatting refuses
+    // the precision (it panics for `{:.65535e}`), there is no rendering to agree with
+    if prec.is_some() && (guard(|| fmt_f64(x.hi, tr, plus, prec)).is_err() || guard(|| fmt_f64(x.lo.abs(), tr, false, prec)).is_err()) {
+        ctx.label("f64-rendering-panics");
+        ctx.out_of_domain();
+        return;
+    }
     let s = match guard(|| fmt_tf(&t, tr, plus, prec)) {
         Ok(s) => s,
         Err(m) => {
@@ -406,7 +425,7 @@ pub fn c20() -> Property {
     let g = |name, eval, quick, thorough| SubCheck { name, kind: Kind::Generated { words: 32, max_items: 0 }, eval, quick, thorough };
     Property {
         id: "C20",
-        rule: "format: valid values over the whole range (incl. -0.0 and subnormal low words, exponents needing 300-digit decimals) x {Display, LowerExp, UpperExp} x {plain, +} x {no precision, .0-.40}; serde: valid values through serde_test tokens, serde_json value tree, JSON text (both field orders, sequence) and serde's SeqDeserializer/MapDeserializer; arbitrary (hi, lo) word pairs (any class, lo within ±4 ulps of the half/quarter/full-ulp thresholds, inf, NaN) in all three shapes; nine malformed shapes. non-trivial = non-zero low word (format, round trip), pair within 2 binades of the threshold or non-finite (arbitrary), every malformed case; distinct = distinct (value, format) / word pairs",
+        rule: "format: valid values over the whole range (incl. -0.0 and subnormal low words, exponents needing 300-digit decimals) x {Display, LowerExp, UpperExp} x {plain, +} x {no precision, .0-.40 (mostly), .41-.1100, and the values around 767, 1023, 1074, 2000, 4096, 65535}; serde: valid values through serde_test tokens, serde_json value tree, JSON text (both field orders, sequence) and serde's SeqDeserializer/MapDeserializer; arbitrary (hi, lo) word pairs (any class, lo within ±4 ulps of the half/quarter/full-ulp thresholds, inf, NaN) in all three shapes; nine malformed shapes. non-trivial = non-zero low word (format, round trip), pair within 2 binades of the threshold or non-finite (arbitrary), every malformed case; distinct = distinct (value, format) / word pairs",
         assumptions: vec!["f64::from_str and the f64 Display/LowerExp/UpperExp of the Rust standard library (used to parse numerals back and as the reference rendering)".into(), "serde's data model (serde::de::value deserializers, serde_test tokens) and serde_json with float_roundtrip".into()],
         subchecks: vec![
             g("format", c20_format, 400_000, 10_000_000),
